@@ -68,6 +68,9 @@ CHECKS.update({
     "C18": dict(technique="TLA+ spec Vfs.tla (page index / pending index / poll of level 0 and 1 / open from a plan; as-is and with candidate repairs): TLC exhaustive; its behaviours + directed schedules driven on the REAL VFSFile (cgo, tags vfs verif) with a 1-page cache and a gated replica client granting one poll round at a time; TLC judges VfsObs.tla (verdict) and Trace_Vfs.tla (conformance)",
         design="7/C18", note="Reference = the real Replica.Restore at the VFS's reported TXID with the header bytes the VFS rewrites masked. " + TB,
         text="Served (every page <= commit is the restore's page at the reported position) and FileSizeOK at open and after every poll, across growth, partial shrink, VACUUM, compaction and retention of the files being read; every observation of the real VFSFile is judged in TLA+ and replayed through the as-is model (0 divergences)."),
+    "C16": dict(technique="TLA+ specs Follow.tla / FollowAlg.tla (Replica.tla + follower: transcription of applyNewLTXFiles / fillFollowGap / resume validation, step-wise apply, sidecar publish, Kill): TLC exhaustive; its behaviours on a real primary + the real Restore(Follow) as a child process fed published replica views, killed before FS-mutating syscalls (ptrace supervisor) and restarted; TLC judges FollowObs.tla (verdict) and Trace_Follow.tla (binding)",
+        design="7/C16", note="Poll timing is made deterministic by publishing replica views to the follower; quick tier kills at every 5th FS-mutating syscall + near renames. " + TB,
+        text="NeverAhead, NoSkip, SidecarMonotone, Converges/NoStall, ResumeAccepted are model-checked with Kill between apply steps; on the real code the follower at quiescence must equal an ordinary restore of the latest TXID (header bytes that follow mode rewrites masked), the sidecar TXID sequence must be monotone across kills/restarts, resumes must be accepted and no silent stall may occur while an ordinary restore succeeds."),
     "C19": dict(technique="TLA+ spec RestoreV3.tla/RestoreV3Plan.tla (transcription of the 0.3.x restore planning + declarative statement): TLC enumerates all small layouts; same layouts materialised as real lz4 snapshot/WAL-segment files from real SQLite histories and restored by the real code; TLC judge RestoreV3Obs.tla",
         design="7/C19", note="Layouts <= 2 generations, <= 2 snapshots, <= 3 indices, <= 3 segments per index, one segment removed, all timestamps; file replica client. " + TB,
         text="The transcription of findBestSnapshotV3 / filterWALSegmentsV3 / the contiguity walk / format arbitration is checked against the declarative statement on every small layout; each layout is built physically from a real history and restored with the real Replica.Restore; the TLA+ judge requires the real outcome to satisfy the declarative statement (verdict) and to equal the transcription (binding)."),
